@@ -49,7 +49,6 @@ from pydantic import BaseModel, ValidationError, create_model, validate_model
 from pydantic.fields import FieldInfo
 from typing_extensions import Annotated
 
-from ..util import is_public_name
 from ..util import typing as t
 
 
@@ -355,16 +354,14 @@ class PartialFactory:
 
     @classmethod
     def _get_field_vals(cls, obj: BaseModel) -> Iterator[Tuple[str, Any]]:
-        """Return field values, excluding None and private fields.
+        """Return field values, excluding None.
 
         This is different from `BaseModel.dict` as it ignores the defined alias
         and is used here only for "internal representation".
         """
-        return (
-            (k, v)
-            for k, v in obj.__dict__.items()
-            if is_public_name(k) and v is not None
-        )
+        # NOTE: __dict__ of a model has just fields and extra fields (private
+        # attributes live elsewhere), so there is nothing to filter out by name
+        return ((k, v) for k, v in obj.__dict__.items() if v is not None)
 
     @classmethod
     def _nested_models(cls, field_types: Dict[str, t.TypeHint]) -> Set[Type[BaseModel]]:
